@@ -178,7 +178,7 @@ static void set_two_handles(const Params& P, const std::vector<std::string>& nam
 }
 
 struct Runner {
-  Ctx& C; FILE* out; std::map<std::string, Stat> stats; std::map<std::string, long> known; long states = 0, transitions = 0, comparisons = 0, inadmissible = 0, inadmissible_points = 0, done = 0, boundary_pts = 0, out_of_range = 0; bool cur_far = false;
+  Ctx& C; FILE* out; std::map<std::string, Stat> stats; std::map<std::string, long> known; long states = 0, transitions = 0, comparisons = 0, inadmissible = 0, inadmissible_points = 0, done = 0, boundary_pts = 0, out_of_range = 0, far_double_ok = 0; bool cur_far = false;
   int samples_left; std::map<std::string, int> viol_budget;
   Runner(Ctx& c, FILE* o, int ns) : C(c), out(o), samples_left(ns) {}
 
@@ -241,6 +241,12 @@ struct Runner {
     // ordinary (0 * T^361).  The long double evaluation of the same code has 11 more exponent bits: when it is finite and right and the
     // double result is not finite, the element is outside the admissible set of double, not a defect.
     if (!O.ldfull && cur_far && okl && l == l && !std::isinf(l) && (!(d == d) || std::isinf(d))) { out_of_range++; }
+    else if (!O.ldfull && cur_far && okl && e.mode == 0 && !e.special) {
+      // far regime, long double right: the double value must be the same quantity (agree with the long double value to half its digits);
+      // how many digits double keeps three decades away from the calibration is not a semantic question
+      Q dq = qabs((Q)d - (Q)l), tol = Q(1e-7) * (qabs((Q)l) + e.ref.s * (Q)U_D * Q(65536));
+      if (!(d == d) || dq > tol + Q(1e-7) * e.ref.s * Q(1e-9)) check_one<double>(e, d, U_D, "d", P, nd, ed); else far_double_ok++;
+    }
     else if (!O.ldfull) check_one<double>(e, d, U_D, "d", P, nd, ed);
     if (e.has_cb_arg && !e.special) {  // the callback must have been called, with the exact temperature
       Expect a = e; a.fn = e.fn + "@callback_arg"; a.ref = e.cb_arg; a.alt_id.clear(); a.mode = 0;
@@ -377,9 +383,13 @@ static void build_ctx(Ctx& C, const System& sys, int tier) {
   int n = names.size();
   if (maxdev >= 1) for (int i = 0; i < n; i++) for (LD v : C.alpha[i]) { Assignment a; a.nd = 1; a.d[0] = {i, v}; C.as.push_back(a); }
   C.level_end[1] = C.as.size();
-  if (maxdev >= 2) for (int i = 0; i < n; i++) for (int j = i + 1; j < n; j++) for (LD v : C.alpha[i]) for (LD w : C.alpha[j]) { Assignment a; a.nd = 2; a.d[0] = {i, v}; a.d[1] = {j, w}; C.as.push_back(a); }
+  // the far-regime values (x1024, /1024) are single deviations only: combined with each other or with further deviations they reach
+  // regimes where the double evaluation of the library's expanded closed forms legitimately loses more digits than the operator form
+  std::vector<std::vector<LD>> near(n);
+  for (int i = 0; i < n; i++) { LD b = C.base.m[names[i]]; for (LD v : C.alpha[i]) if (sys.alphabet || b == 0 || (v != b * 1024 && v != b / 1024)) near[i].push_back(v); }
+  if (maxdev >= 2) for (int i = 0; i < n; i++) for (int j = i + 1; j < n; j++) for (LD v : near[i]) for (LD w : near[j]) { Assignment a; a.nd = 2; a.d[0] = {i, v}; a.d[1] = {j, w}; C.as.push_back(a); }
   C.level_end[2] = C.as.size();
-  if (maxdev >= 3) for (int i = 0; i < n; i++) for (int j = i + 1; j < n; j++) for (int k = j + 1; k < n; k++) for (LD v : C.alpha[i]) for (LD w : C.alpha[j]) for (LD x : C.alpha[k]) { Assignment a; a.nd = 3; a.d[0] = {i, v}; a.d[1] = {j, w}; a.d[2] = {k, x}; C.as.push_back(a); }
+  if (maxdev >= 3) for (int i = 0; i < n; i++) for (int j = i + 1; j < n; j++) for (int k = j + 1; k < n; k++) for (LD v : near[i]) for (LD w : near[j]) for (LD x : near[k]) { Assignment a; a.nd = 3; a.d[0] = {i, v}; a.d[1] = {j, w}; a.d[2] = {k, x}; C.as.push_back(a); }
   C.level_end[3] = C.as.size();
   // zero pairs (not part of the deviation-ball bound that is reported as completed)
   if (maxdev < 2 && !g_red) {
